@@ -166,7 +166,16 @@ def check_pattern(ctx, tr, rng, k, j, forced=None):
         for kx in sorted(gset ^ mset):
             in_glob = kx in gset
             twins = [c for c in cands if key(c) == kx]
-            cand = next((c for c in twins if (c in accepted) != in_glob), twins[0] if twins else kx)
+            returned = {T.norm_result(p) for p in res}
+            if in_glob:
+                # the spelling glob actually returned (under IGNORECASE several entries may fold to the same key)
+                cand = next((c for c in twins if c in returned and c not in accepted), None)
+                if cand is None:
+                    continue    # the returned spelling is accepted; only a case twin of it is not
+            else:
+                cand = next((c for c in twins if c in accepted and c not in returned), None)
+                if cand is None:
+                    continue
             fid = None
             for tk in toks:
                 fid = fid or classify(tk, fn, cand, root, in_glob, not in_glob, multi)
